@@ -104,6 +104,9 @@ def check(ctx, rep):
         ok = len(chk) == 1 and [norm(a) for a in chk[0].args] == ['self._number', 'self._recpos + 1', 'self._recpos + 1', acc] and bool(io) and \
             all(chk[0].lineno < c.lineno for c in io)
         rep.ob('access.record-checked-before-io', 'RandomFile.%s checks the lock on record _recpos+1 before any transfer' % meth, ok, '', ctx.where(fn))
+        rep.ob('access.record-check-unconditional', 'RandomFile.%s checks the lock on every path (a statement of the function body, not of a branch)' % meth,
+               len(chk) == 1 and isinstance(chk[0]._parent, ast.Expr) and chk[0]._parent in fn.body,
+               'the lock is consulted only on some paths: a locked record beyond the end of the file (or whatever the branch excludes) can be read or written', ctx.where(fn))
         sp = [c for c in own_nodes(fn) if isinstance(c, ast.Call) and norm(c.func) == 'self._set_record_pos']
         rep.ob('access.record-checked-before-io', 'RandomFile.%s positions first, so the checked record is the one transferred' % meth,
                len(sp) == 1 and bool(chk) and sp[0].lineno < chk[0].lineno, '', ctx.where(fn))
@@ -145,6 +148,7 @@ def variants(ctx):
 
     cur = 'start <= stop_1 and start_1 <= stop'
     return [
+        Va('get-checks-lock-only-inside-file', 'break', DF, lambda tree: _lock_in_else(mu.find_def(tree, 'RandomFile.get')), expect='access.record-check-unconditional'),
         Va('endpoint-containment-only', 'break', DF,
            in_fn('Locks._try_record_lock', lambda fn: mu.replace_expr(fn, mu.text_is(cur), '(start >= start_1 and start <= stop_1) or (stop >= start_1 and stop <= stop_1)')),
            expect='overlap.predicate'),
@@ -186,4 +190,14 @@ def _check_last(fn):
     c = [s for s in fn.body if 'try_record_access' in norm(s)][0]
     fn.body.remove(c)
     fn.body.append(c)
+    return True
+
+
+def _lock_in_else(fn):
+    chk = [st for st in fn.body if isinstance(st, ast.Expr) and 'try_record_access' in norm(st)]
+    br = [st for st in fn.body if isinstance(st, ast.If) and norm(st.test) == 'self.eof()']
+    if len(chk) != 1 or len(br) != 1:
+        return False
+    fn.body.remove(chk[0])
+    br[0].orelse.insert(0, chk[0])
     return True
